@@ -42,7 +42,11 @@ NowOf(ord, min) == [ord |-> ord, min |-> min, sec |-> 30]
 
 Run(id, args) == [id |-> id, args |-> args, cfg |-> "", env |-> ("NO_COLOR" :> "1"), q |-> NoQuery, now |-> FALSE]
 RunQ(id, args, q) == [Run(id, args) EXCEPT !.q = q]
-CaseOf(text, now, runs) == [kind |-> "eval", text |-> text, now |-> Stamp(now), nowv |-> now, runs |-> runs]
+(* the process time zone: around the Sundays on which daylight saving time starts at midnight in Chile the cases *)
+(* run there (that midnight does not exist); otherwise the supervisor rotates the zone ("")                        *)
+ChileSundays == {Ord(2019, 9, 8), Ord(2020, 9, 6), Ord(2021, 9, 5)}
+ZoneFor(now) == IF \E d \in ChileSundays : now.ord >= d - 13 /\ now.ord <= d + 8 THEN "America/Santiago" ELSE ""
+CaseOf(text, now, runs) == [kind |-> "eval", text |-> text, now |-> Stamp(now), nowv |-> now, runs |-> runs, tz |-> ZoneFor(now)]
 
 T0 == Ord(2020, 3, 15)
 
@@ -83,7 +87,8 @@ TotalCases(sh) ==
             {CaseOf(FileText(<<RecOf(d, Shoulds[2], <<>>, es), RecOf(T0, "1h!", <<>>, <<E("30m", "today")>>)>>), NowOf(T0, m), TotalRuns)
                 : d \in dates, m \in mins}
         ELSE IF twoOpen \/ (~Pick(sh.a * 3 + sh.b, 3, 1) /\ sh.b # 0) THEN {}
-        ELSE {CaseOf(FileText(<<RecOf(d, Shoulds[s], <<>>, es), RecOf(T0 - 5, Shoulds[1 + (s % 5)], <<"other: 50% done, %d %s %v 100%">>, <<E("1h", "5% \\n \"q\" <b> & 'x'")>>),
+        ELSE {CaseOf(FileText(<<RecOf(d, Shoulds[s], <<>>, es), RecOf(d, "", <<>>, <<E("-15m", "same date, next record")>>),
+                               RecOf(T0 - 5, Shoulds[1 + (s % 5)], <<"other: 50% done, %d %s %v 100%">>, <<E("1h", "5% \\n \"q\" <b> & 'x'")>>),
                                RecOf(d, "", <<>>, <<E("-15m", "dup date")>>), RecOf(T0, "1h!", <<>>, <<E("30m", "today")>>)>>),
                      NowOf(T0, m), TotalRuns)
                 : d \in dates, m \in mins, s \in {ss \in 1..5 : Pick(ss + sh.a, 5, 2)}}
@@ -94,7 +99,8 @@ TotalCases(sh) ==
 DatePool == <<Ord(2019, 12, 28), Ord(2019, 12, 29), Ord(2019, 12, 30), Ord(2019, 12, 31), Ord(2020, 1, 1), Ord(2020, 1, 5),
               Ord(2020, 1, 6), Ord(2020, 2, 28), Ord(2020, 2, 29), Ord(2020, 3, 1), Ord(2020, 3, 31), Ord(2020, 4, 1),
               Ord(2020, 12, 27), Ord(2020, 12, 28), Ord(2020, 12, 31), Ord(2021, 1, 1), Ord(2021, 1, 3), Ord(2021, 1, 4),
-              Ord(2015, 12, 31), Ord(2016, 1, 3), Ord(2016, 1, 4), Ord(2024, 12, 30), Ord(2025, 1, 1), Ord(2020, 3, 15), Ord(2020, 3, 14)>>
+              Ord(2015, 12, 31), Ord(2016, 1, 3), Ord(2016, 1, 4), Ord(2024, 12, 30), Ord(2025, 1, 1), Ord(2020, 3, 15), Ord(2020, 3, 14),
+              Ord(0, 1, 3), Ord(0, 3, 1), Ord(0, 12, 31)>>        \* the first representable year
 ND == Len(DatePool)
 Amounts == <<"1h", "-2h", "8:00 - 12:30", "45m", "0m", "10h">>
 ReportRuns ==
@@ -112,7 +118,7 @@ ReportRuns ==
                        Run("report:" \o k \o ":fill", <<"report", "--aggregate", k, "--decimal", "--fill", "--no-warn">>)]
 ReportShards == {[k |-> "report", a |-> i, b |-> j] : i \in 1..ND, j \in 1..ND}
 (* the dates of one file come from the same window, so that --fill stays small *)
-Window(i) == IF i <= 12 THEN 1 ELSE IF i <= 18 THEN 2 ELSE IF i <= 21 THEN 3 ELSE IF i <= 23 THEN 4 ELSE 1
+Window(i) == IF i <= 12 THEN 1 ELSE IF i <= 18 THEN 2 ELSE IF i <= 21 THEN 3 ELSE IF i <= 23 THEN 4 ELSE IF i <= 25 THEN 1 ELSE 5
 ReportCases(sh) ==
     IF ~Pick(sh.a + 7 * sh.b, 3, 1) \/ Window(sh.a) # Window(sh.b) THEN {}
     ELSE {CaseOf(FileText(<<RecOf(DatePool[sh.a], "8h!", <<>>, <<E(Amounts[1 + (sh.a % 6)], "")>>),
@@ -126,7 +132,7 @@ ReportCases(sh) ==
 (* filter: every clause kind, boundary dates equal to record dates, the     *)
 (* relative shortcuts at several reference dates                            *)
 (***************************************************************************)
-RefDates == <<Ord(2020, 3, 15), Ord(2020, 1, 1), Ord(2021, 1, 3), Ord(2020, 3, 1), Ord(2020, 12, 31), Ord(2024, 2, 29)>>
+RefDates == <<Ord(2020, 3, 15), Ord(2020, 1, 1), Ord(2021, 1, 3), Ord(2020, 3, 1), Ord(2020, 12, 31), Ord(2024, 2, 29), Ord(2020, 9, 3)>>
 (* record dates relative to the reference date *)
 Offsets == <<-400, -366, -95, -35, -29, -8, -7, -6, -1, -1, 0, 0, 1, 6, 7, 31>>     \* some dates twice
 FilterFile(ref) ==
@@ -201,6 +207,31 @@ FilterCases(sh) ==
     IN  {CaseOf(FileText(ordered), NowOf(ref, 600), SetToSeq(FilterRunsFor(ref)))}
 
 (***************************************************************************)
+(* sort: all arrangements of three or four records whose dates are chosen   *)
+(* to confuse a field-wise comparison (same month or day in other years,    *)
+(* both notations); every command that orders records by date               *)
+(***************************************************************************)
+SortPool == <<Ord(2022, 12, 30), Ord(2023, 12, 24), Ord(2024, 12, 3), Ord(2024, 1, 31), Ord(2023, 2, 28), Ord(2024, 2, 1)>>
+SortRuns == <<RunQ("json:sort-asc", <<"json", "--sort", "asc">>, NoQuery), RunQ("json:sort-desc", <<"json", "--sort", "desc">>, NoQuery),
+              Run("sortprint:asc", <<"print", "--no-style", "--no-warn", "--sort", "asc">>),
+              Run("sortprint:desc", <<"print", "--no-style", "--no-warn", "--sort", "desc">>),
+              Run("pwt:sort-asc", <<"print", "--with-totals", "--no-style", "--no-warn", "--sort", "asc">>),
+              Run("pwt:sort-desc", <<"print", "--sort", "desc", "--with-totals", "--no-style", "--no-warn">>),
+              Run("report:day:plain", <<"report", "--decimal", "--diff", "--no-warn">>),
+              Run("report:month:fill", <<"report", "--aggregate", "month", "--fill", "--decimal", "--no-warn">>),
+              Run("total:plain", <<"total", "--diff", "--decimal", "--no-warn">>)>>
+SortShards == {[k |-> "sort", a |-> i, b |-> j] : i \in 1..Len(SortPool), j \in 1..Len(SortPool)}
+SortRec(i, n) == LET r == RecOf(SortPool[i], IF n = 2 THEN "8h!" ELSE "", <<>>, <<E(NatStr(n) \o "h", "#n" \o NatStr(i))>>)
+                 IN  IF (i + n) % 2 = 0 THEN Slashed(r) ELSE r
+SortCases(sh) ==
+    IF sh.a = sh.b THEN {}
+    ELSE {CaseOf(FileText(<<SortRec(sh.a, 1), SortRec(sh.b, 2), SortRec(c, 3)>>), NowOf(T0, 720), SortRuns)
+            : c \in {cc \in 1..Len(SortPool) : cc # sh.a /\ cc # sh.b}}
+         \cup {CaseOf(FileText(<<SortRec(sh.a, 1), SortRec(sh.b, 2), SortRec(c, 3), SortRec(d, 4)>>), NowOf(T0, 720), SortRuns)
+            : c \in {cc \in 1..Len(SortPool) : cc # sh.a /\ cc # sh.b /\ Pick(cc + sh.a, 2, 1)},
+              d \in {dd \in 1..Len(SortPool) : dd # sh.a /\ dd # sh.b /\ Pick(dd + sh.b, 3, 1)}}
+
+(***************************************************************************)
 (* shortcuts: every day of a non-leap and a leap year as reference date x   *)
 (* every relative shortcut; the file holds records at the boundaries of the *)
 (* period the shortcut denotes (the day before, first, last, the day after) *)
@@ -273,7 +304,11 @@ Schemes == <<[cfg |-> "colour_scheme = dark\n", env |-> <<>>, flag |-> <<>>],
              [cfg |-> "colour_scheme = dark\n", env |-> <<>>, flag |-> <<"--no-style">>]>>
 StyleCmds == <<<<"print">>, <<"print", "--with-totals">>, <<"total", "--diff">>, <<"report", "--diff">>,
                <<"report", "--aggregate", "week", "--fill">>, <<"report", "--aggregate", "month", "--chart">>,
-               <<"tags", "--values", "--count">>, <<"today", "--diff">>, <<"today", "--diff", "--now">>>>
+               <<"tags", "--values", "--count">>, <<"today", "--diff">>, <<"today", "--diff", "--now">>,
+               (* flags that change the rendering of values, combined with every way of switching styling off *)
+               <<"total", "--diff", "--decimal">>, <<"report", "--aggregate", "week", "--decimal", "--diff">>,
+               <<"today", "--diff", "--decimal">>, <<"tags", "--decimal", "--count">>,
+               <<"report", "--fill", "--chart", "--diff">>>>
 StyleRuns ==
     LET mk(ci, si) == [id |-> "style:" \o NatStr(ci) \o ":" \o NatStr(si),
                        args |-> StyleCmds[ci] \o Schemes[si].flag \o <<"--no-warn">>,
@@ -287,15 +322,19 @@ StyleFiles == <<
     <<RecOf(T0 - 40, "-2h!", <<"\\033[31m %s %d #esc">>, <<E("1m", "100% #ä=ö"), E("<23:00 - 0:30>", "#Σmega")>>)>>,
     <<RecOf(T0, "", <<>>, <<>>)>>,
     <<RecOf(T0, "7h!", <<"stand-up with the #team", "then #gym">>,
-            <<E("9:00 - 9:15", "#ticket=2024"), E("1h", "review #k=38 #m"), E("-15m", "#pause=5;1m"), E("10:00 - ?", "#z=[0m")>>)>>
+            <<E("9:00 - 9:15", "#ticket=2024"), E("1h", "review #k=38 #m"), E("-15m", "#pause=5;1m"), E("10:00 - ?", "#z=[0m")>>)>>,
+    (* days without records in between (rows filled in by --fill) *)
+    <<RecOf(T0 - 4, "", <<>>, <<E("3h", "")>>), RecOf(T0 - 1, "8h!", <<>>, <<E("12h30m", "#long")>>), RecOf(T0 + 2, "", <<>>, <<E("-1h", "")>>)>>
 >>
 StyleShards == {[k |-> "style", a |-> i, b |-> 0] : i \in 1..Len(StyleFiles)}
 StyleCases(sh) == {CaseOf(FileText(StyleFiles[sh.a]), NowOf(T0, 840), StyleRuns)}
 
 Shards == CASE Mode = "total" -> TotalShards [] Mode = "report" -> ReportShards [] Mode = "filter" -> FilterShards
             [] Mode = "tags" -> TagShards [] Mode = "style" -> StyleShards [] Mode = "shortcuts" -> ShortcutShards
+            [] Mode = "sort" -> SortShards
 CasesOf(sh) == CASE sh.k = "total" -> TotalCases(sh) [] sh.k = "report" -> ReportCases(sh) [] sh.k = "filter" -> FilterCases(sh)
                  [] sh.k = "tags" -> TagCases(sh) [] sh.k = "style" -> StyleCases(sh) [] sh.k = "shortcuts" -> ShortcutCases(sh)
+                 [] sh.k = "sort" -> SortCases(sh)
 
 Init == shard \in Shards /\ case = None
 Next == /\ case = None
